@@ -230,6 +230,10 @@ def run_case(case, rng):
                 case.check(float(v) == float(data[i]), "items-value-wrong", f"{k!r}", **facts)
             else:
                 case.check(np.array_equal(np.asarray(v), data[i]), "items-value-wrong", f"{k!r}", **facts)
+    vals = case.call("values", lambda: list(t.values()), facts=facts)
+    if vals is not case.FAIL and items is not case.FAIL:
+        case.check(len(vals) == len(items) and all(np.array_equal(np.asarray(v), np.asarray(w)) for v, (_, w) in zip(vals, items)),
+                   "values-differ-from-items", "", **facts)
     for k in d0:
         g = case.call("get", t.get, k, "DEFAULT", facts=facts)
         if g is not case.FAIL:
